@@ -2,13 +2,16 @@
 # o5_selfcheck.sh [repo] - self check of /verif/dataset/o5_acf.py (C18, group O5).
 #   1. the unmodified tree must give exactly: acf_lag0 ok, acf_range failed (only the debug-assertion
 #      obligations: known finding), acf_shift ok, acf_scale ok (the guard is `!(var > 0.0)`: the
-#      branch-does-not-depend-on-scale obligation is PROVED);
-#   2. three mutants applied with sed to a COPY of src/cmb_dataset.c must be killed:
+#      branch-does-not-depend-on-shift / -scale obligations are PROVED);
+#   2. four mutants applied with sed to a COPY of src/cmb_dataset.c must be killed:
 #        m1  `dsp->xa[ui + ulag] - m1`  ->  `dsp->xa[ui + ulag] + m1`      (definition or shift obligation)
 #        m2  `acov = dk / ((double)(ustop))` -> `dk / ((double)(dsp->count))` (definition obligation)
 #        m3  `if (!(var > 0.0))` -> `if (var < 1e-9)`: the absolute threshold again (defect (e)); must be a
 #            FAILED acf_scale (only the branch-depends-on-scale obligation, native replay agreeing), not an
 #            extraction break, and must leave acf_lag0 / acf_shift ok
+#        m4  `if (!(var > 0.0))` -> `if (!(var > 1e-9 * fmax(1.0, m1 * m1)))`: a threshold relative to the mean
+#            (the seeded mutant C18-m2); must be a FAILED acf_shift (the branch-depends-on-shift obligation,
+#            native replay agreeing), no group may be an error / extraction break, acf_lag0 stays ok
 # The repo is never touched: src/ and include/ are copied to a mktemp -d scratch directory under
 # ${O5_SCRATCH:-/var/tmp/p}, removed on exit.
 # exit 0 iff everything is as expected.
@@ -60,6 +63,7 @@ EXPECT_BASE='len(G) == 4 and G["acf_lag0"]["status"] == "ok" and G["acf_shift"][
  and any("(acf[ulag] >= -1.0) && (acf[ulag] <= 1.0) cannot fail" in x for x in F["acf_range"])
  and G["acf_scale"]["status"] == "ok"
  and any("does not depend on the scale c (proved" in o["desc"] and "var > 0" in o["desc"] for o in G["acf_scale"]["obligations"])
+ and any("does not depend on the shift s (proved" in o["desc"] and "var > 0" in o["desc"] for o in G["acf_shift"]["obligations"])
  and not any("1e-9" in o["desc"] for g in G.values() for o in g["obligations"])'
 if check base "$(echo $EXPECT_BASE)"; then echo "  -> as expected"; else echo "  -> UNEXPECTED statuses on the unmodified tree"; rc=1; fi
 
@@ -90,6 +94,19 @@ EXPECT_M3='G["acf_scale"]["status"] == "failed" and len(F["acf_scale"]) == 1
  and G["acf_lag0"]["status"] == "ok" and G["acf_shift"]["status"] == "ok"'
 if check m3 "$(echo $EXPECT_M3)"; then
     echo "  -> killed (acf_scale: branch depends on the scale c; native witness agrees)"; else echo "  -> m3 SURVIVED (or was not reported as a failed acf_scale)"; rc=1; fi
+
+echo "== mutant m4: if (!(var > 0.0))  ->  if (!(var > 1e-9 * fmax(1.0, m1 * m1)))   (threshold relative to the mean)"
+copy m4
+sed -i 's/if (!(var > 0\.0)) {/if (!(var > 1e-9 * fmax(1.0, m1 * m1))) {/' "$W/m4/src/cmb_dataset.c"
+if cmp -s "$W/m4/src/cmb_dataset.c" "$REPO/src/cmb_dataset.c"; then echo "  -> mutant m4 did not apply"; rc=1; fi
+run "$W/m4" m4
+EXPECT_M4='len(G) == 4 and not any(g["status"] == "error" for g in G.values())
+ and G["acf_shift"]["status"] == "failed" and len(F["acf_shift"]) == 1
+ and "does not depend on the shift s" in F["acf_shift"][0] and "Max(1, m1**2)" in F["acf_shift"][0]
+ and NAT["acf_shift"].get("agrees") is True
+ and G["acf_lag0"]["status"] == "ok"'
+if check m4 "$(echo $EXPECT_M4)"; then
+    echo "  -> killed (acf_shift: branch depends on the shift s; native witness agrees)"; else echo "  -> m4 SURVIVED (or was not reported as a failed acf_shift)"; rc=1; fi
 
 if [ $rc -eq 0 ]; then echo "SELFCHECK OK"; else echo "SELFCHECK FAILED"; fi
 exit $rc
